@@ -676,7 +676,8 @@ static void exec_rollback(Plan const& p, Report& rep)
         if (p.integ == VEGAS) oracle_c07_share(p, s.w->view(), rep, true);
 
         std::string const& want = model(cur);
-        if (model_failed || !durable) return;
+        if (model_failed) return;
+        (void) durable;   // a text that does not read back is C05's finding; the comparison with the model stands on its own
         if (now != want && !diverged)
         {
             std::size_t j = 0;
